@@ -344,4 +344,45 @@ func fixSaturation(r *core.Run) {
 		expect("default", func(oc string) bool { return strings.HasPrefix(oc, "panic:") }, "re-panic")
 	}
 	r.Floor("R6.fixsat", 16)
+	// "truncated as for the plain operator": shared with C15/C16
+	euclidRule(r, "R7.truncdiv", isFixArithmetic, 16, 2)
+	c13OwnRangePredicate(r, "R8.ownrange")
+}
+
+// c13OwnRangePredicate: R8 — OWN engine extended to range predicates: the 64-bit fixed-point and integer value types test
+// whether a big intermediate result fits with big.Int.IsUint64 (unsigned types) or IsInt64 (signed types). The predicate
+// of the other signedness inside a method of such a type halves (or doubles) the accepted range: the saturating variant
+// clamps representable results, or the checked one lets an overflow through.
+func c13OwnRangePredicate(r *core.Run, rule string) {
+	w := r.W
+	foreign := map[string]string{
+		"UFix64Value": "IsInt64", "UInt64Value": "IsInt64", "Word64Value": "IsInt64",
+		"Fix64Value": "IsUint64", "Int64Value": "IsUint64",
+	}
+	n := 0
+	for _, fn := range w.SrcFuncs() {
+		if fn.Parent() != nil || fn.Pkg == nil {
+			continue
+		}
+		pp := fn.Pkg.Pkg.Path()
+		if pp != mod+"/interpreter" && pp != mod+"/values" {
+			continue
+		}
+		bad, ok := foreign[core.RecvName0(fn)]
+		if !ok {
+			continue
+		}
+		for _, c := range core.Calls(fn, true) {
+			sc := c.Common().StaticCallee()
+			if sc == nil || sc.Pkg == nil || sc.Pkg.Pkg.Path() != "math/big" || (sc.Name() != "IsInt64" && sc.Name() != "IsUint64") {
+				continue
+			}
+			n++
+			key := core.SSAKey(fn) + ": big.Int." + sc.Name()
+			r.Check(sc.Name() != bad, rule, key, c.Pos(), "range predicate of the type's own signedness",
+				"a method of "+core.RecvName0(fn)+" tests a big result with "+sc.Name()+", the range of the other signedness: representable results are treated as overflow (or overflows accepted)")
+		}
+	}
+	r.Check(n >= 3, rule, "64-bit value types: big-result range predicates", 0, itoa(n)+" found", "fewer range predicates than reviewed")
+	r.Floor(rule, 3)
 }
